@@ -1,5 +1,8 @@
 """C03 — the origin map sends every output byte back to the file and offset it came from.
 
+IND  OriginsInd (Apalache): the map tiles [0, total) - inductive over push and merge for arbitrary integer offsets and
+     lengths (maps of up to 8 entries drawn symbolically), and implies that the probe of origin(p) lands on the entry
+     containing p; refutation: with empty pushes inserted the step fails (D8).
 MC   MC_Origins: B-tree lookup with the overlapping-ranges ordering = segment the byte was
      pushed with, for every push/merge sequence of the bound; refutation config (empty pushes
      not skipped) must produce the counterexample (D8).
@@ -99,6 +102,14 @@ def run(tier, seed):
     v.add_mc("MC_Origins", r, "LookupAgrees, KeysSorted (empty pushes skipped)")
     r = vlib.tlc_model_check("MC_Origins.tla", "MC_Origins_refute.cfg", workers=2, expect_violation=True)
     v.add_mc("MC_Origins_refute", r, "refutation: an empty push that is inserted shadows the next segment (D8 mechanism)")
+    # 1b. the same structure over unbounded integer offsets / lengths: inductive invariant discharged by Apalache
+    ap = []
+    ap.append(("Init => IndInv", vlib.apalache_check("OriginsInd.tla", "ConstInitFixed", "Init", "IndInv", 0)))
+    ap.append(("IndInv => LookupOk", vlib.apalache_check("OriginsInd.tla", "ConstInitFixed", "IndInit", "LookupOk", 0)))
+    if not quick:
+        ap.append(("IndInv /\\ Next => IndInv' (push, merge)", vlib.apalache_check("OriginsInd.tla", "ConstInitFixed", "IndInit", "IndInv", 1)))
+        ap.append(("refutation: empty pushes inserted => step fails (D8)", vlib.apalache_check("OriginsInd.tla", "ConstInitBroken", "IndInit", "IndInv", 1, expect_error=True)))
+    v.cov["apalache_obligations"] = [{"obligation": n, "wall_s": round(w, 1)} for n, w in ap]
     # 2. cases
     cases = []
     by_id = {}
